@@ -15,7 +15,9 @@
     In-place effects that are modelled because they are observable:
       - [add_point] prunes the three recorded objects, so the objects returned by [oracle] are pruned,
         and a query point written [0*y] (dictionary [{y: 0}]) is recorded as [{}];
-      - [add_point] on a composite prunes the composite's weights (lazily: NOT at construction);
+      - [Function.__add__] prunes the merged weights (since /repo 5162ea4), [__rmul__] does not: a
+        composite carries a zero weight only as a bare zero scaling [0*F] (then ALL its weights are
+        zero); [add_point] on a composite prunes the composite's weights in place;
       - classification inside [oracle] runs BEFORE [add_point] (unpruned query point, unpruned
         weights), the one inside [add_point] AFTER both prunings.
     Aliasing that is NOT observable and therefore not modelled: the same Python [Point] object is
@@ -201,13 +203,19 @@ Definition value (s : state) (f : fid) (x : pdict) : state * edict :=
   end.
 
 (** The op language.  [Combine terms] is the composite obtained with the operator overloads from
-    [q1*t1 + q2*t2 + ...] (terms are leaves or composites): weights merged left to right, NOT pruned;
-    [reuse_gradient] and-ed. *)
+    [q1*t1 + q2*t2 + ...] (terms are leaves or composites), built the way Python evaluates it:
+    [q1*t1] is a bare scaling ([__rmul__]: no pruning, so [0*f] keeps [{f: 0}]); every following
+    [+ qk*tk] is [Function.__add__]: merge, then PRUNE (so [f1 + f2 - f2] is [{f1: 1}],
+    [0*f1 + f2] is [{f2: 1}], [f - f] is [{}]).  [-], unary [-], [/] are [+] and scalings.
+    [reuse_gradient] is and-ed over ALL operands, cancelled ones included.
+    [Direct w reuse] is the documented constructor call with an explicit dictionary over leaf functions:
+    nothing is pruned or checked there. *)
 Inductive op : Type :=
 | NewPoint                                  (* Point() by the user *)
 | NewExpr                                   (* Expression() by the user *)
 | NewLeaf (reuse : bool)                    (* Function(is_leaf=True, reuse_gradient=reuse) *)
 | Combine (terms : list (fid * Q))
+| Direct (w : wdict) (reuse : bool)         (* Function(is_leaf=False, decomposition_dict=w, reuse_gradient=reuse) *)
 | Oracle (f : fid) (p : pdict)
 | Gradient (f : fid) (p : pdict)
 | Value (f : fid) (p : pdict)
@@ -216,6 +224,15 @@ Inductive op : Type :=
 | AddPoint (f : fid) (x g : pdict) (v : edict).
 
 Definition combine_weights (s : state) (terms : list (fid * Q)) : wdict :=
+  match terms with
+  | [] => []
+  | (f0, q0) :: rest =>
+      fold_left (fun acc '(f, q) => prune (merge Nat.eqb acc (scale q (f_w (getf s f)))))
+                rest (scale q0 (f_w (getf s f0)))
+  end.
+
+(** the construction before /repo 5162ea4 ([__add__] did not prune); kept for the regression examples *)
+Definition combine_weights_old (s : state) (terms : list (fid * Q)) : wdict :=
   fold_left (fun acc '(f, q) => merge Nat.eqb acc (scale q (f_w (getf s f)))) terms [].
 Definition combine_reuse (s : state) (terms : list (fid * Q)) : bool :=
   forallb (fun '(f, _) => f_reuse (getf s f)) terms.
@@ -233,6 +250,8 @@ Definition step_ret (s : state) (o : op) : state * ret :=
   | Combine terms =>
       (mkS (pt_ctr s) (ex_ctr s)
            (funs s ++ [mkF false (combine_reuse s terms) (combine_weights s terms) [] []]), [])
+  | Direct w reuse =>
+      (mkS (pt_ctr s) (ex_ctr s) (funs s ++ [mkF false reuse w [] []]), [])
   | Oracle f p => let '(s', (g, v)) := oracle s f p in (s', [inl g; inr v])
   | Gradient f p => let '(s', (g, _)) := oracle s f p in (s', [inl g])
   | Value f p => let '(s', v) := value s f p in (s', [inr v])
@@ -278,11 +297,16 @@ Definition trace (c : bool * list op) : D :=
 (** ** Executable side conditions on op lists (used by the theorems of Props/C07.v)
 
     [op_scoped]: the op only mentions objects that exist (function ids, leaf points), dictionaries have
-    unique keys (every Python dict has), no composite is empty (no operator can build one), and
-    [add_point] is called by the user the way the primitive steps call it: on a point that is not
-    yet recorded for the function or for one of its terms.
-    [op_guard]: excludes exactly the two triggers of the known findings: a composite whose merged
-    weights contain a zero (F-C07a), a query point with an explicit zero coefficient (F-C07b). *)
+    unique keys (every Python dict has), a composite has at least one operand, an explicit dictionary
+    handed to the constructor is over leaf functions and is not declared differentiable with a
+    non-differentiable term, and [add_point] is called by the user the way the primitive steps call it: on a point that is not yet recorded for
+    the function or for one of its terms.
+    [op_guard]: excludes exactly the triggers of the open findings: a composite that is the ZERO
+    FUNCTION -- its weights are a bare zero scaling [{f: 0, ...}] (F-C07d) or everything cancelled
+    [{}] (F-C07c); with [__add__] pruning, these are the only operator-built composites with a zero
+    weight --, an explicit constructor dictionary with a zero weight (F-C07e, the old F-C07a through
+    the constructor), and a query point with an explicit zero coefficient (F-C07b).  Cancelling weights ([f1 + f2 - f2]) are
+    accepted. *)
 Fixpoint nodup_by {A} (eqb : A -> A -> bool) (l : list A) : bool :=
   match l with
   | [] => true
@@ -306,7 +330,10 @@ Definition op_scoped (s : state) (o : op) : bool :=
   match o with
   | NewPoint | NewExpr | NewLeaf _ => true
   | Combine terms =>
-      forallb (fun '(f, _) => in_range s f) terms && negb (is_nil (combine_weights s terms))
+      forallb (fun '(f, _) => in_range s f) terms && negb (is_nil terms)
+  | Direct w reuse =>
+      nodup_by Nat.eqb (keys w) && forallb (fun '(k, _) => in_range s k && f_leaf (getf s k)) w
+      && implb reuse (forallb (fun '(k, _) => f_reuse (getf s k)) w)
   | Oracle f p | Gradient f p | Value f p => in_range s f && pwf_b s p
   | Stationary f | Fixed f => in_range s f
   | AddPoint f x g v =>
@@ -316,7 +343,8 @@ Definition op_scoped (s : state) (o : op) : bool :=
 
 Definition op_guard (s : state) (o : op) : bool :=
   match o with
-  | Combine terms => allnz_b (combine_weights s terms)
+  | Combine terms => allnz_b (combine_weights s terms) && negb (is_nil (combine_weights s terms))
+  | Direct w _ => allnz_b w && negb (is_nil w)
   | Oracle _ p | Gradient _ p | Value _ p => allnz_b p
   | _ => true
   end.
